@@ -67,6 +67,9 @@ class Ctx:
         self.events += rec.get('events', 0)
         self.switches += rec.get('switches', 0)
         self.probes['line-level pre-emptions'] = self.probes.get('line-level pre-emptions', 0) + rec.get('preemptions', 0)
+        if rec.get('sync_ops'):
+            self.probes['lock/event operations of the tool (synchronisation seam)'] = self.probes.get('lock/event operations of the tool (synchronisation seam)', 0) + rec['sync_ops']
+            self.probes['contended lock acquisitions'] = self.probes.get('contended lock acquisitions', 0) + rec.get('sync_contended', 0)
         for kk, v in rec.get('faults_fired', {}).items():
             self.faults[kk] = self.faults.get(kk, 0) + v
         for kk, v in rec.get('probes', {}).items():
@@ -388,6 +391,10 @@ def check(pid, tier, seed, jobs, budget_s=None, out=sys.stdout):
         'assumptions': getattr(camp, 'ASSUMPTIONS', []),
         'wall_s': round(wall, 2), 'violations': sum(len(v) for s, v in by_sig.items() if s in new_sigs),
     }
+    if os.environ.get('VERIF_LINES_DIR'):   # union-coverage tool (tools_coverage.py): which lines did this campaign reach
+        os.makedirs(os.environ['VERIF_LINES_DIR'], exist_ok=True)
+        with open(os.path.join(os.environ['VERIF_LINES_DIR'], pid + '.lines'), 'w') as f:
+            f.write('\n'.join(sorted(lines_hit)))
     evdir = os.environ.get('VERIF_EVIDENCE_DIR', os.path.join(HERE, 'evidence'))
     os.makedirs(evdir, exist_ok=True)
     with open(os.path.join(evdir, pid + '.json'), 'w') as f:
